@@ -822,12 +822,156 @@ Section Xlink.
     destruct g as [i sy c mk fs ks]. rewrite all_group_eq. apply in_flat_map. exists k. split; auto.
   Qed.
 
+  (* ---- has_xlink with its early returns finds every trigger that the field-by-field enumeration contains *)
+  Definition hx_prim (pr : prim) : bool :=
+    match pr with PR _ _ _ _ img => match img with Some g => hx_group g | None => false end end.
+  Lemma hx_group_eq i sy c m fs ks : hx_group (G i sy c m fs ks) = existsb hx_node ks.
+  Proof. reflexivity. Qed.
+  Lemma hx_filter_eq q i ps : hx_filter (FD q i ps) = existsb hx_prim ps.
+  Proof. reflexivity. Qed.
+  Lemma hx_gsub_eq i sy c m fs ks :
+    hx_gsub (G i sy c m fs ks) =
+    match c with Some c' => hx_clipchain c' | None => false end ||
+    match m with Some m' => hx_maskchain_d m' | None => false end || existsb hx_filter fs.
+  Proof. reflexivity. Qed.
+  Lemma hx_node_group g :
+    hx_node (NGroup g) =
+    xlink_trigger (NGroup g) || match g_mask g with Some d => hx_maskchain_d d | None => false end || hx_group g || hx_gsub g.
+  Proof. destruct g. reflexivity. Qed.
+  Lemma hx_clip_eq q i nx r : hx_clipchain (CD q i nx r) = hx_group r || match nx with Some c' => hx_clipchain c' | None => false end.
+  Proof. reflexivity. Qed.
+  Lemma hx_mask_eq q i nx r : hx_maskchain_d (MD q i nx r) = hx_group r || match nx with Some c' => hx_maskchain_d c' | None => false end.
+  Proof. reflexivity. Qed.
+
+  Lemma hx_complete_all :
+    (forall n m, In m (all_node n) -> xlink_trigger m = true -> hx_node n = true) /\
+    (forall g, (forall m, In m (all_group g) -> xlink_trigger m = true -> hx_group g = true) /\
+               (forall m, In m (all_gdefs g) -> xlink_trigger m = true -> hx_gsub g = true)) /\
+    (forall c m, In m (all_clip c) -> xlink_trigger m = true -> hx_clipchain c = true) /\
+    (forall d m, In m (all_mask d) -> xlink_trigger m = true -> hx_maskchain_d d = true) /\
+    (forall f m, In m (all_filter f) -> xlink_trigger m = true -> hx_filter f = true) /\
+    (forall pr m, In m (all_prim pr) -> xlink_trigger m = true -> hx_prim pr = true) /\
+    (forall pa m, In m (all_paint pa) -> xlink_trigger m = true -> hx_paint pa = true).
+  Proof.
+    apply tree_mutind.
+    - intros g [Hg Hs] m Hm Ht. rewrite all_node_group in Hm. rewrite hx_node_group.
+      destruct Hm as [<-|Hm]; [rewrite Ht; reflexivity|]. apply in_app_or in Hm. destruct Hm as [Hm|Hm].
+      + rewrite (Hg m Hm Ht). rewrite !orb_true_r. reflexivity.
+      + rewrite (Hs m Hm Ht). rewrite !orb_true_r. reflexivity.
+    - intros i fl st Hfl Hst m Hm Ht. rewrite all_node_path in Hm. destruct Hm as [<-|Hm]; [discriminate Ht|].
+      change (hx_paint fl || hx_paint st = true). apply in_app_or in Hm. destruct Hm as [Hm|Hm].
+      + rewrite (Hfl m Hm Ht). reflexivity.
+      + rewrite (Hst m Hm Ht). apply orb_true_r.
+    - intros; reflexivity.
+    - intros i flat ch [Hfl _] m Hm Ht. rewrite all_node_text in Hm.
+      change (xlink_trigger (NText i flat ch) || hx_group flat = true).
+      destruct Hm as [<-|Hm]; [rewrite Ht; reflexivity|]. rewrite (Hfl m Hm Ht). apply orb_true_r.
+    - intros i sy c mk fs ks Hc Hm Hfs Hks. split.
+      + intros m Hin Ht. rewrite all_group_eq in Hin. rewrite hx_group_eq. apply in_flat_map in Hin.
+        destruct Hin as (k & Hk & Hin). apply existsb_exists. exists k. split; auto.
+        rewrite Forall_forall in Hks. apply (Hks k Hk m Hin Ht).
+      + intros m Hin Ht. rewrite all_gdefs_eq in Hin. rewrite hx_gsub_eq.
+        apply in_app_or in Hin. destruct Hin as [Hin|Hin].
+        { destruct c as [c'|]; [|destruct Hin]. simpl in Hc. rewrite (Hc m Hin Ht). reflexivity. }
+        apply in_app_or in Hin. destruct Hin as [Hin|Hin].
+        { destruct mk as [m'|]; [|destruct Hin]. simpl in Hm. rewrite (Hm m Hin Ht). rewrite orb_true_r. reflexivity. }
+        apply in_flat_map in Hin. destruct Hin as (f & Hf & Hin).
+        assert (E : existsb hx_filter fs = true).
+        { apply existsb_exists. exists f. split; auto. rewrite Forall_forall in Hfs. apply (Hfs f Hf m Hin Ht). }
+        rewrite E. apply orb_true_r.
+    - intros q i nx r Hnx [Hr _] m Hin Ht. rewrite all_clip_eq in Hin. rewrite hx_clip_eq.
+      apply in_app_or in Hin. destruct Hin as [Hin|Hin]; [rewrite (Hr m Hin Ht); reflexivity|].
+      destruct nx as [c'|]; [|destruct Hin]. simpl in Hnx. rewrite (Hnx m Hin Ht). apply orb_true_r.
+    - intros q i nx r Hnx [Hr _] m Hin Ht. rewrite all_mask_eq in Hin. rewrite hx_mask_eq.
+      apply in_app_or in Hin. destruct Hin as [Hin|Hin]; [rewrite (Hr m Hin Ht); reflexivity|].
+      destruct nx as [c'|]; [|destruct Hin]. simpl in Hnx. rewrite (Hnx m Hin Ht). apply orb_true_r.
+    - intros q i ps Hps m Hin Ht. rewrite all_filter_eq in Hin. rewrite hx_filter_eq. apply in_flat_map in Hin.
+      destruct Hin as (pr & Hpr & Hin). apply existsb_exists. exists pr. split; auto.
+      rewrite Forall_forall in Hps. apply (Hps pr Hpr m Hin Ht).
+    - intros k sb r ins img Hi m Hin Ht. rewrite all_prim_eq in Hin. simpl. destruct img as [g|]; [|destruct Hin].
+      simpl in Hi. apply (proj1 Hi m Hin Ht).
+    - intros m [].
+    - intros m [].
+    - intros q i m [].
+    - intros q i m [].
+    - intros q i r [Hr _] m Hin Ht. rewrite all_paint_pat in Hin. simpl. apply (Hr m Hin Ht).
+  Qed.
+
+  Definition has_trigger (l : list node) : Prop := exists m, In m l /\ xlink_trigger m = true.
+  Lemma ht_incl l l' : incl l l' -> has_trigger l -> has_trigger l'.
+  Proof. intros H (m & Hm & Ht). exists m. split; auto. Qed.
+
+  (* and it answers true only when there is one *)
+  Lemma hx_sound_all :
+    (forall n, hx_node n = true -> has_trigger (all_node n)) /\
+    (forall g, (hx_group g = true -> has_trigger (all_group g)) /\ (hx_gsub g = true -> has_trigger (all_gdefs g))) /\
+    (forall c, hx_clipchain c = true -> has_trigger (all_clip c)) /\
+    (forall d, hx_maskchain_d d = true -> has_trigger (all_mask d)) /\
+    (forall f, hx_filter f = true -> has_trigger (all_filter f)) /\
+    (forall pr, hx_prim pr = true -> has_trigger (all_prim pr)) /\
+    (forall pa, hx_paint pa = true -> has_trigger (all_paint pa)).
+  Proof.
+    apply tree_mutind.
+    - intros g [Hg Hs] H. rewrite hx_node_group in H. rewrite all_node_group.
+      apply orb_true_iff in H. destruct H as [H|H].
+      2:{ apply (ht_incl (all_gdefs g)); [apply incl_tl, incl_appr, incl_refl|auto]. }
+      apply orb_true_iff in H. destruct H as [H|H].
+      2:{ apply (ht_incl (all_group g)); [apply incl_tl, incl_appl, incl_refl|auto]. }
+      apply orb_true_iff in H. destruct H as [H|H].
+      { exists (NGroup g). split; [left; reflexivity|exact H]. }
+      (* the mask chain is part of the sub-roots *)
+      apply (ht_incl (all_gdefs g)); [apply incl_tl, incl_appr, incl_refl|]. apply Hs.
+      destruct g as [i sy c m fs ks]. rewrite hx_gsub_eq. simpl g_mask in H. destruct m as [d|]; [|discriminate].
+      rewrite H. rewrite orb_true_r. reflexivity.
+    - intros i fl st Hfl Hst H. change (hx_paint fl || hx_paint st = true) in H. rewrite all_node_path.
+      apply orb_true_iff in H. destruct H as [H|H].
+      + apply (ht_incl (all_paint fl)); [apply incl_tl, incl_appl, incl_refl|auto].
+      + apply (ht_incl (all_paint st)); [apply incl_tl, incl_appr, incl_refl|auto].
+    - intros i sub _ _. exists (NImage i sub). split; [apply self_in_all_node|reflexivity].
+    - intros i flat ch [Hfl _] H. change (xlink_trigger (NText i flat ch) || hx_group flat = true) in H.
+      rewrite all_node_text. apply orb_true_iff in H. destruct H as [H|H].
+      + exists (NText i flat ch). split; [left; reflexivity|exact H].
+      + apply (ht_incl (all_group flat)); [apply incl_tl, incl_refl|auto].
+    - intros i sy c mk fs ks Hc Hm Hfs Hks. split.
+      + rewrite hx_group_eq, all_group_eq. intro H. apply existsb_exists in H. destruct H as (k & Hk & H).
+        rewrite Forall_forall in Hks. destruct (Hks k Hk H) as (m & Hin & Ht). exists m. split; auto.
+        apply in_flat_map. exists k. split; auto.
+      + rewrite hx_gsub_eq, all_gdefs_eq. intro H. apply orb_true_iff in H. destruct H as [H|H].
+        * apply orb_true_iff in H. destruct H as [H|H].
+          -- destruct c as [c'|]; [|discriminate]. simpl in Hc. apply (ht_incl (all_clip c')); [apply incl_appl, incl_refl|auto].
+          -- destruct mk as [m'|]; [|discriminate]. simpl in Hm.
+             apply (ht_incl (all_mask m')); [apply incl_appr, incl_appl, incl_refl|auto].
+        * apply existsb_exists in H. destruct H as (f & Hf & H). rewrite Forall_forall in Hfs.
+          destruct (Hfs f Hf H) as (m & Hin & Ht). exists m. split; auto.
+          apply in_or_app. right. apply in_or_app. right. apply in_flat_map. exists f. split; auto.
+    - intros q i nx r Hnx [Hr _] H. rewrite hx_clip_eq in H. rewrite all_clip_eq. apply orb_true_iff in H. destruct H as [H|H].
+      + apply (ht_incl (all_group r)); [apply incl_appl, incl_refl|auto].
+      + destruct nx as [c'|]; [|discriminate]. simpl in Hnx. apply (ht_incl (all_clip c')); [apply incl_appr, incl_refl|auto].
+    - intros q i nx r Hnx [Hr _] H. rewrite hx_mask_eq in H. rewrite all_mask_eq. apply orb_true_iff in H. destruct H as [H|H].
+      + apply (ht_incl (all_group r)); [apply incl_appl, incl_refl|auto].
+      + destruct nx as [c'|]; [|discriminate]. simpl in Hnx. apply (ht_incl (all_mask c')); [apply incl_appr, incl_refl|auto].
+    - intros q i ps Hps H. rewrite hx_filter_eq in H. rewrite all_filter_eq. apply existsb_exists in H.
+      destruct H as (pr & Hpr & H). rewrite Forall_forall in Hps. destruct (Hps pr Hpr H) as (m & Hin & Ht).
+      exists m. split; auto. apply in_flat_map. exists pr. split; auto.
+    - intros k sb r ins img Hi H. rewrite all_prim_eq. simpl in H. destruct img as [g|]; [|discriminate]. simpl in Hi.
+      apply (proj1 Hi H).
+    - discriminate.
+    - discriminate.
+    - intros; discriminate.
+    - intros; discriminate.
+    - intros q i r [Hr _] H. rewrite all_paint_pat. simpl in H. auto.
+  Qed.
+
+  Lemma has_xlink_iff root : has_xlink root = true <-> has_trigger (all_group root).
+  Proof.
+    split.
+    - intro H. destruct hx_sound_all as (_ & S & _). apply (proj1 (S root)). exact H.
+    - intros (m & Hm & Ht). destruct hx_complete_all as (_ & C & _). apply (proj1 (C root) m Hm Ht).
+  Qed.
+
   Lemma has_xlink_complete root n : In n (all_group root) -> xlink_trigger n = true -> has_xlink root = true.
   Proof.
-    intros Hn Ht. unfold has_xlink.
-    apply (walk_group_done false (fun n b => b || xlink_trigger n) (fun n b => xlink_trigger n = true -> b = true)) with (n := n); auto.
-    - intros k a Hk. rewrite Hk. apply orb_true_r.
-    - intros k m a Hk Hk'. rewrite (Hk Hk'). reflexivity.
+    intros Hn Ht. unfold has_xlink. destruct hx_complete_all as (_ & H & _). apply (proj1 (H root) n Hn Ht).
   Qed.
 
   Lemma xl_fe_children cs : forall written out w', write_fe_children o cs written = (out, w') -> lx out = true ->
